@@ -88,6 +88,7 @@ type Rule struct {
 	Chunks        int     `json:"chunks,omitempty"`    // split: force chunk count (+1; 0 = hash)
 	EmptyPct      int     `json:"empty_pct,omitempty"` // chance that a collection-typed output (top nesting level) is empty
 	Bools         string  `json:"bools,omitempty"`     // "true" / "false": every bool output leaf of the job has this value
+	LastRow       string  `json:"last_row,omitempty"`  // "empty" / "null": the last element of every collection of collections produced by the job is [] / {} resp. null
 	Len           int     `json:"len,omitempty"`       // force the length of every collection-typed output (top nesting level) (+1; 0 = hash)
 }
 
@@ -131,9 +132,10 @@ type Spec struct {
 	// parent directory (<case>/link -> <case>/real).
 	SymlinkedParent bool `json:"symlinked_parent,omitempty"`
 	// Set by the probe from a matching rule: value of every bool leaf.
-	ForceBool *bool `json:"-"`
-	EmptyPct  int   `json:"-"`
-	ForceLen  int   `json:"-"` // +1; 0 = not forced
+	ForceBool *bool  `json:"-"`
+	EmptyPct  int    `json:"-"`
+	ForceLen  int    `json:"-"` // +1; 0 = not forced
+	LastRow   string `json:"-"` // "empty" / "null" (from a matching rule)
 	// Side directory for files created outside the pipestance.
 	OutsideDir string `json:"outside_dir,omitempty"`
 	// Arrays produced have distinct elements by construction.
